@@ -179,6 +179,14 @@ def check(ctx):
             dty = c.term.get("dest_ty", "")
             if dty != "bool":
                 continue
+            if c.name == "eq" and len(c.args) == 2 and (c.arg_lit(1, P) or c.arg_lit(0, P)) is not None:
+                # the name list spelled as `matches!(name, "a" | "b")` / an == chain: one exact-name disjunct per literal
+                l_ = c.arg_lit(1, P) or c.arg_lit(0, P)
+                if reserved(l_):
+                    r3.ok("disjunct == %r (a reserved generated name)" % l_)
+                else:
+                    r3.bad(V(r3.id, f.id, "predicate-literal:%s" % l_, "deletion predicate lists %r, which is not one of the reserved generated names" % l_, c.file, c.line))
+                continue
             if p not in allowed_calls:
                 r3.bad(V(r3.id, f.id, "predicate-disjunct:%s(%s)" % (short_path(p), c.arg_str(1)),
                          "deletion predicate has an undocumented disjunct: %s" % c.snip, c.file, c.line))
